@@ -19,6 +19,7 @@ Conventions
 -/
 namespace C03
 open Gen.Beacon
+set_option linter.unusedVariables false  -- `h` of `if h : …` is used by `decreasing_by`
 
 /-! ### integers: `int.from_bytes` through `utils.u16be/u32be/u32` (`data[:size]`, unsigned) -/
 
